@@ -76,7 +76,7 @@ def gen_step(r, npool):
     if r.random() < 0.08:
         # a URL nobody has seen before (unique userinfo/host/port): every module-level memo misses, fills and - once it is full - evicts,
         # in several threads at once
-        return ("fresh", r.randrange(1 << 40), r.choice(["ctor", "encoded", "build", "derive"]))
+        return ("fresh", r.randrange(1 << 40), r.choice(["ctor", "encoded", "build", "derive", "idn", "wide-ip", "with_host-idn"]))
     k = r.random()
     i = r.randrange(npool)
     if k < 0.42:
@@ -165,6 +165,18 @@ def execute(step, pool, quoters):
         if op == "fresh":
             n, how = step[1], step[2]
             text = f"http://u{n:x}:p%20w@h{n % 100003}.ex{n % 7}ample.com:{1 + n % 65000}/p{n % 13}?k={n % 5}#f"
+            if how in ("idn", "wide-ip", "with_host-idn"):
+                # never-seen NON-ASCII hosts: an IDN label, and IP literals written with full-width digits (IDNA maps them to ASCII, after
+                # which the host is encoded again as an IP literal) - the host-encoding helpers and their caches miss in several threads at once
+                wide = str.maketrans("0123456789", "０１２３４５６７８９")
+                if how == "idn":
+                    u = URL(f"http://bücher{n:x}.exämple.com:{1 + n % 65000}/p?k=1")
+                elif how == "wide-ip":
+                    lit = f"[０:０:０:０:０:０:{n % 65535:x}:{(n >> 16) % 65535:x}]" if n % 2 else f"{n % 223 + 1}.{(n >> 8) % 256}.{(n >> 16) % 256}.{(n >> 24) % 256}".translate(wide)
+                    u = URL(f"http://u:p@{lit}:{1 + n % 65000}/p")
+                else:
+                    u = URL("http://u@x.example:81/p").with_host(f"ж{n:x}.рф")
+                return (u.raw_host, u.host, u.host_subcomponent, u.host_port_subcomponent, u.authority, str(u), u.human_repr(), str(URL(str(u))))
             if how == "ctor":
                 u = URL(text)
             elif how == "encoded":
